@@ -227,10 +227,16 @@ class Prober:
         self.conn = Conn('probe', dispatcher)
         d1 = dc.handle(dispatcher, self.conn, ('describe', '.', None))
         d2 = dc.handle(dispatcher, self.conn, ('describe', '.', None))
-        self.ok = d1[0] == 'describing'
+        # whatever comes back (an error reply, a list, nonsense): the check ends with a verdict, not with a crash
+        self.ok = d1[0] == 'describing' and isinstance(d1[2], dict) and isinstance(d1[2].get('modules'), dict) \
+            and all(isinstance(md, dict) and isinstance(md.get('accessibles'), dict) and
+                    all(isinstance(ad, dict) and isinstance(ad.get('datainfo'), dict) for ad in md['accessibles'].values())
+                    for md in d1[2]['modules'].values())
+        self.describe_error = None if self.ok else str(d1)[:300]
         self.desc = d1[2] if self.ok else {'modules': {}}
-        self.strict = strict_json(d1[2])
-        self.stable = self.strict and json.dumps(d1[2], sort_keys=True) == json.dumps(d2[2], sort_keys=True) \
+        self.strict = self.ok and strict_json(d1[2])
+        self.stable = self.strict and d2[0] == 'describing' and isinstance(d2[2], dict) \
+            and json.dumps(d1[2], sort_keys=True) == json.dumps(d2[2], sort_keys=True) \
             and list(d1[2].get('modules', {})) == list(d2[2].get('modules', {}))
         self.desc = json.loads(json.dumps(self.desc, default=repr))      # what a client sees
         self.dts = {}
